@@ -439,7 +439,28 @@ func (ms *Modules) Process() []error {
 
 	mods := make([]*Module, 0, len(ms.Modules)+len(ms.SubModules))
 	mods = append(mods, inKeyOrder(ms.Modules)...)
-	mods = append(mods, inKeyOrder(ms.SubModules)...)
+	// A submodule takes part through the include statements that denote
+	// it. When several revisions of a submodule are loaded, a revision that
+	// no include denotes while another one is included contributes nothing,
+	// its augments included.
+	included := map[*Module]bool{}
+	includedName := map[string]bool{}
+	for _, mm := range []map[string]*Module{ms.Modules, ms.SubModules} {
+		for _, m := range mm {
+			for _, in := range m.Include {
+				if in.Module != nil {
+					included[in.Module] = true
+					includedName[in.Module.Name] = true
+				}
+			}
+		}
+	}
+	for _, sm := range inKeyOrder(ms.SubModules) {
+		if !included[sm] && includedName[sm.Name] {
+			continue
+		}
+		mods = append(mods, sm)
+	}
 	for len(mods) > 0 {
 		var processed int
 		for i := 0; i < len(mods); {
